@@ -218,6 +218,15 @@ impl Sm {
         let r = self.next();
         match cls {
             "full" => r as i64,
+            "max" => half.wrapping_sub(1),
+            "min" => half.wrapping_neg(),
+            "ext" => {
+                if r & 1 == 0 {
+                    half.wrapping_sub(1)
+                } else {
+                    half.wrapping_neg()
+                }
+            }
             "bnd" => bnd(r),
             "zero" => 0,
             "mix" => match self.next() % 4 {
@@ -259,8 +268,39 @@ fn or1(x: usize) -> usize {
     if x == 0 { 1 } else { x }
 }
 
+fn fnv_i64(v: &[i64]) -> u64 {
+    let mut h: u64 = 0xcbf29ce484222325;
+    for x in v {
+        for b in x.to_le_bytes() {
+            h ^= b as u64;
+            h = h.wrapping_mul(0x100000001b3);
+        }
+    }
+    h
+}
+
+/// every limb for small rings; hash + length + first limbs beyond 1024 scalars
+fn show_big(v: &[i64]) -> String {
+    if v.len() <= 1024 {
+        show(v)
+    } else {
+        format!("h={:016x} len={} head={}", fnv_i64(v), v.len(), show(&v[..8]))
+    }
+}
+
+fn raw_hash<T>(v: &[T]) -> String {
+    let bytes: &[u8] = unsafe { std::slice::from_raw_parts(v.as_ptr() as *const u8, std::mem::size_of_val(v)) };
+    let mut h: u64 = 0xcbf29ce484222325;
+    for b in bytes {
+        h ^= *b as u64;
+        h = h.wrapping_mul(0x100000001b3);
+    }
+    let head: Vec<String> = bytes.chunks(8).take(6).map(|c| format!("{:016x}", u64::from_le_bytes(c.try_into().unwrap_or([0; 8])))).collect();
+    format!("raw h={:016x} bytes={} head={}", h, bytes.len(), head.join(","))
+}
+
 fn flat(v: &VecZnx<Vec<u8>>) -> String {
-    show(v.raw())
+    show_big(v.raw())
 }
 
 pub fn hal(r: &Req) -> String {
@@ -299,7 +339,7 @@ where
     let op = r.get("op").unwrap_or("");
     let n = p.n;
     let module: Module<BE> = Module::<BE>::new(n as u64);
-    let mut scratch: ScratchOwned<BE> = ScratchOwned::alloc(1 << 19);
+    let mut scratch: ScratchOwned<BE> = ScratchOwned::alloc((1usize << 19).max(n * 8 * 96));
     let mut rng = Sm(r.i64("seed") as u64);
     let cols = p.cols;
 
@@ -563,7 +603,7 @@ where
     for i in 0..cols {
         module.vec_znx_big_normalize(&mut o, b, 0, i, big, b, i, scratch.borrow());
     }
-    show(o.raw())
+    show_big(o.raw())
 }
 
 #[allow(clippy::too_many_arguments)]
@@ -615,6 +655,18 @@ where
         }
     };
     match op {
+        "dft_fft_raw" => {
+            // the forward transform itself: raw DFT-domain words of dft(a)
+            return raw_hash(a_dft.raw());
+        }
+        "dft_ifft_raw" => {
+            // forward then inverse transform, raw big-coefficient words (before any normalisation)
+            let mut bg: BigO<BE> = module.vec_znx_big_alloc(cols, p.sa);
+            for i in 0..cols {
+                module.vec_znx_idft_apply(&mut bg, i, &a_dft, i, scratch.borrow());
+            }
+            return raw_hash(bg.raw());
+        }
         "dft_apply" => {
             // r_dft has sr limbs; limb j ← a limb offset + j*step (zero beyond a)
             module.vec_znx_dft_apply(step, doff, &mut r_dft, c, a, c2);
